@@ -1,6 +1,7 @@
 package main
 
 import (
+	"runtime/debug"
 	"hash/crc32"
 	"encoding/binary"
 	"fmt"
@@ -37,6 +38,8 @@ type seqCfg struct {
 	listKey    uint32 // thresholdListKey: a node with fewer keys lists its items instead of its children
 	home       string
 	phased     bool // a few writes per process life, then GC (engine seq, mix full)
+	collide    bool       // engine seq, mix collide: groups of keys forced onto one key hash (C13)
+	groups     [][]string // the groups (set when the key pool is drawn, or by a replay)
 }
 
 type seqStore struct {
@@ -164,6 +167,9 @@ func guard(f func()) (panicked string) {
 	defer func() {
 		if r := recover(); r != nil {
 			panicked = fmt.Sprint(r)
+			if debugLog {
+				fmt.Fprintf(os.Stderr, "PANIC %v\n%s\n", r, debug.Stack())
+			}
 		}
 	}()
 	f()
@@ -507,7 +513,7 @@ func (s *seqStore) doGC(c *Ctx, bkt, begin, end, noGCDays int, merge, pretend bo
 	var st *store.GCState
 	panicked = guard(func() { st = s.hs.VerifGCRun(bkt, b, e, merge) })
 	if panicked != "" {
-		c.line("%s => RANGE %d %d PANIC", lhs, b, e)
+		c.line("%s => RANGE %d %d PANIC %s", lhs, b, e, strings.ReplaceAll(panicked, "\n", " "))
 		return
 	}
 	errs := "ok"
@@ -520,6 +526,10 @@ func (s *seqStore) doGC(c *Ctx, bkt, begin, end, noGCDays int, merge, pretend bo
 }
 
 func (s *seqStore) restart(c *Ctx, r *RNG, mode int) bool {
+	if s.cfg.collide && mode != 0 {
+		// C13 quantifies over "tree dump present or rebuilt from hints": hint files and the collision table stay
+		mode = 3
+	}
 	if p := guard(func() { s.hs.Close() }); p != "" {
 		c.line("fatal => during close: %s", strings.ReplaceAll(p, "\n", " "))
 		return false
@@ -624,6 +634,11 @@ func genSeqCfg(r *RNG, home string) seqCfg {
 			}
 		}
 	}
+	if r.Chance(4) {
+		// the deepest tree the store supports (bucket digits + height = 8: the leaf stores the fewest hash bytes): one bucket served
+		c.nb, c.height = 256, 6
+		c.served = []int{r.Intn(256)}
+	}
 	sort.Ints(c.served)
 	c.checkVHash = r.Chance(30)
 	c.dfmax = []int64{256 * 3, 256 * 5, 256 * 8, 256 * 40, 4000 << 20}[r.Intn(5)]
@@ -660,12 +675,24 @@ func engineSeq(c *Ctx) {
 		seqReplay(c, base)
 		return
 	}
+	collide := c.mix == "collide"
+	if collide {
+		c.mix = "full"
+	}
 	for ci := 0; ci < c.n; ci++ {
 		r := root.Fork(uint64(ci))
 		home := filepath.Join(base, fmt.Sprintf("case%d", ci))
 		os.RemoveAll(home)
 		os.MkdirAll(home, 0o755)
 		cfg := genSeqCfg(r, home)
+		if collide {
+			cfg.collide = true
+			cfg.nb, cfg.served = 1, []int{0}
+			if cfg.height > 3 {
+				cfg.height = 3
+			}
+			cfg.checkVHash = false
+		}
 		if c.mix == "full" && r.Chance(65) {
 			// GC-oriented layout: a data file is "not full" for GC's destination test when it is smaller than
 			// DataFileMax - BodyMax, so use a small body limit (as the store's own GC tests do) and files of 6-16 blocks
@@ -685,6 +712,27 @@ func engineSeq(c *Ctx) {
 		seqCase(c, r, fmt.Sprintf("%d-%d", c.seed, ci), cfg)
 		os.RemoveAll(home)
 	}
+}
+
+// installGroups overrides the key hash: every key of a group gets the default hash of the group's first key
+func installGroups(groups [][]string) {
+	if len(groups) == 0 {
+		store.VerifSetKeyHash(nil)
+		return
+	}
+	m := map[string]uint64{}
+	for _, g := range groups {
+		h := store.VerifKeyHash([]byte(g[0]))
+		for _, k := range g {
+			m[k] = h
+		}
+	}
+	store.VerifSetKeyHash(func(key []byte) uint64 {
+		if h, ok := m[string(key)]; ok {
+			return h
+		}
+		return store.VerifKeyHash(key)
+	})
 }
 
 func seqCase(c *Ctx, r *RNG, id string, cfg seqCfg) {
@@ -729,6 +777,36 @@ func seqCase(c *Ctx, r *RNG, id string, cfg seqCfg) {
 				c.count("key.unserved-bucket")
 			}
 		}
+	}
+	if cfg.collide {
+		// 1..3 groups of 2..4 pool keys share one key hash (the default hash of the group's first key)
+		gr := r.Fork(4242)
+		perm := gr.Intn(len(keys))
+		ng := 1 + gr.Intn(3)
+		idx := 0
+		for g := 0; g < ng && idx+1 < len(keys); g++ {
+			n := 2 + gr.Intn(3)
+			var grp []string
+			for j := 0; j < n && idx < len(keys); j++ {
+				grp = append(grp, keys[(perm+idx)%len(keys)])
+				idx++
+			}
+			if len(grp) >= 2 {
+				cfg.groups = append(cfg.groups, grp)
+			}
+		}
+		installGroups(cfg.groups)
+		defer store.VerifSetKeyHash(nil)
+		var gs []string
+		for _, g := range cfg.groups {
+			var ks []string
+			for _, k := range g {
+				ks = append(ks, hx([]byte(k)))
+			}
+			gs = append(gs, strings.Join(ks, ","))
+		}
+		c.line("groups %s", strings.Join(gs, ";"))
+		c.count("case.collide")
 	}
 	nops := 30 + r.Intn(90)
 	if c.tier == "thorough" {
@@ -1050,10 +1128,29 @@ func seqReplay(c *Ctx, base string) {
 			}
 			s = &seqStore{cfg: cfg}
 			curStore = s
+			store.VerifSetKeyHash(nil)
 			c.line("case %s %s", l.args[0], cfgLine(cfg))
 			if err := s.open(); err != nil {
 				c.line("open => REFUSED %v", err)
 			}
+		case "groups":
+			var groups [][]string
+			for _, g := range strings.Split(l.args[0], ";") {
+				var grp []string
+				for _, k := range strings.Split(g, ",") {
+					if k != "" {
+						grp = append(grp, string(unhx(k)))
+					}
+				}
+				if len(grp) >= 2 {
+					groups = append(groups, grp)
+				}
+			}
+			installGroups(groups)
+			if s != nil {
+				s.cfg.collide = true
+			}
+			c.line("%s", l.raw)
 		case "set":
 			flag, _ := strconv.ParseUint(l.args[2], 10, 32)
 			rev, _ := strconv.Atoi(l.args[3])
